@@ -349,9 +349,10 @@ def _finish(case, acc, feats, viol, counts, report):
         outcome = f"ok:accepted={counts[0]}:rejected={counts[1]}"
     if report:
         acc.case(nontrivial=nontrivial, features=sorted(feats), outcome=outcome)
-        if nontrivial and "shape:shared-ancestor" in feats and "seq" not in case:
+        if nontrivial and "shape:shared-ancestor" in feats and "seq" not in case and acc.evaluations % 37 == 0:
             acc.sample({"declaration": [d[0] for d in _declaration(case)], "default": case["default"],
-                        "hashseed": case["hashseed"], "outcome": outcome})
+                        "naming": case["naming"], "option_order": case["order"], "hashseed": case["hashseed"],
+                        "outcome": outcome})
     seen = set()
     for sig, msg, obs, exp in viol:
         if sig in seen:
